@@ -294,3 +294,152 @@ func init() {
 		}
 	}
 }
+
+// ---- inner-insertion leg: text inserted at tag boundaries INSIDE the template (loop and branch bodies, macro
+// bodies, blocks), not only between top-level segments ----
+
+// c14InsertionPoints returns byte offsets of src that lie between two tags or between a tag and text, outside
+// verbatim blocks and comments, where both neighbouring bytes are not white space (so that no whitespace-sensitive
+// construct sees a different neighbourhood).
+func c14InsertionPoints(src string) []int {
+	var pts []int
+	ok := func(p int) bool {
+		if p <= 0 || p >= len(src) {
+			return true
+		}
+		a, b := src[p-1], src[p]
+		sp := func(c byte) bool { return c == ' ' || c == '\n' || c == '\t' || c == '\r' }
+		if sp(a) || sp(b) {
+			return false
+		}
+		// not next to a tag with a whitespace-control dash on this side
+		if p >= 3 && (src[p-3:p] == "-}}" || src[p-3:p] == "-%}" || src[p-3:p] == "-#}") {
+			return false
+		}
+		if p+3 <= len(src) && (src[p:p+3] == "{{-" || src[p:p+3] == "{%-" || src[p:p+3] == "{#-") {
+			return false
+		}
+		return true
+	}
+	add := func(p int) {
+		if ok(p) && (len(pts) == 0 || pts[len(pts)-1] != p) {
+			pts = append(pts, p)
+		}
+	}
+	add(0)
+	i := 0
+	for i < len(src) {
+		switch {
+		case strings.HasPrefix(src[i:], "{% verbatim %}"):
+			j := strings.Index(src[i:], "{% endverbatim %}")
+			if j < 0 {
+				return pts
+			}
+			add(i)
+			i += j + len("{% endverbatim %}")
+			add(i)
+		case strings.HasPrefix(src[i:], "{#"):
+			j := strings.Index(src[i:], "#}")
+			if j < 0 {
+				return pts
+			}
+			add(i)
+			i += j + 2
+			add(i)
+		case strings.HasPrefix(src[i:], "{{") || strings.HasPrefix(src[i:], "{%"):
+			closer := "}}"
+			if src[i+1] == '%' {
+				closer = "%}"
+			}
+			add(i)
+			j := i + 2
+			quote := byte(0)
+			for j < len(src) {
+				c := src[j]
+				if quote != 0 {
+					if c == '\\' {
+						j++
+					} else if c == quote {
+						quote = 0
+					}
+				} else if c == '\'' || c == '"' {
+					quote = c
+				} else if strings.HasPrefix(src[j:], closer) {
+					break
+				}
+				j++
+			}
+			if j >= len(src) {
+				return pts
+			}
+			i = j + 2
+			add(i)
+		default:
+			i++
+		}
+	}
+	add(len(src))
+	return pts
+}
+
+// c14InnerLeg: original vs the same template with a one-byte sentinel at up to three inner points vs the same with
+// long runs of digits there. Removing the sentinels must give the original's output; replacing them by the runs
+// must give the long version's output.
+func c14InnerLeg(sc *c14Sc, base Obs, mainSrc string, o *Outcome, fp *uint64) *Violation {
+	for _, bad := range []string{"spaceless", "apply trim", "\\{", "{% extends", "|trim"} {
+		if strings.Contains(mainSrc, bad) {
+			return nil
+		}
+	}
+	pts := c14InsertionPoints(mainSrc)
+	if len(pts) == 0 || base.Class != "ok" {
+		return nil
+	}
+	r := newR(sc.InnerSeed)
+	var chosen []int
+	for k := 0; k < 3; k++ {
+		chosen = append(chosen, pts[r.N(len(pts))])
+	}
+	sortInts(chosen)
+	build := func(pad string) string {
+		var sb strings.Builder
+		prev := 0
+		for i, p := range chosen {
+			if i > 0 && p == chosen[i-1] {
+				continue
+			}
+			sb.WriteString(mainSrc[prev:p])
+			sb.WriteString(pad)
+			prev = p
+		}
+		sb.WriteString(mainSrc[prev:])
+		return sb.String()
+	}
+	const sentinel = "\x02"
+	ref, w := c14Render(sc.Prog, nil, build(sentinel))
+	*fp = simrt.Mix(*fp, w.Fingerprint(), strHash(ref.Key()))
+	o.Probes["inner_insertion_renders"]++
+	if ref.Class != "ok" || strings.ReplaceAll(ref.Out, sentinel, "") != base.Out {
+		return &Violation{Oracle: "padding-changes-only-padding", Sig: fmt.Sprintf("one byte of text inserted at a tag boundary inside the template changed more than itself (%s)", ref.Class),
+			Detail: fmt.Sprintf("main template %q\n with \\x02 inserted at offsets %v: %q\n original output:  %s\n output with the inserted bytes removed: %s %s", mainSrc, chosen, build(sentinel), tail(base.Out, 300), tail(strings.ReplaceAll(ref.Out, sentinel, ""), 300), ref.Err)}
+	}
+	for _, n := range []int{37, 5000} {
+		pad := strings.Repeat("7", n)
+		got, w := c14Render(sc.Prog, nil, build(pad))
+		*fp = simrt.Mix(*fp, w.Fingerprint(), strHash(got.Key()))
+		o.Probes["inner_insertion_renders"]++
+		if want := strings.ReplaceAll(ref.Out, sentinel, pad); got.Class != "ok" || got.Out != want {
+			return &Violation{Oracle: "padding-changes-only-padding", Sig: fmt.Sprintf("text inserted at tag boundaries inside the template changed more than itself (%s)", got.Class),
+				Detail: fmt.Sprintf("main template %q\n %d digits inserted at offsets %v\n expected tail: %s\n got tail:      %s %s", mainSrc, n, chosen, lastN(want, 200), lastN(got.Out, 200), got.Err)}
+		}
+	}
+	return nil
+}
+
+func sortInts(s []int) {
+	for i := 1; i < len(s); i++ {
+		for j := i; j > 0 && s[j] < s[j-1]; j-- {
+			s[j], s[j-1] = s[j-1], s[j]
+		}
+	}
+}
